@@ -637,7 +637,7 @@ INFO = {'C20': {
         'add/remove history; no fault is injected']}}
 for _v in INFO.values():
     _v['rule'] += (
-        '; swarm dimensions (see probes): listener subclasses (decorated again or not) overriding callbacks, instance-level mappings, callbacks that are partials / static methods / callable objects, feedback chains up to 100 levels, storms of raising listeners, the received object assigned again from its own callback, Decimal and Fraction rotations, residues a hair below a full turn')
+        '; swarm dimensions (see probes): listener subclasses (decorated again or not) overriding callbacks, instance-level mappings, callbacks that are partials / static methods / callable objects, feedback chains up to 100 levels, storms of raising listeners, the received object assigned again from its own callback, Decimal and Fraction rotations, residues a hair below a full turn, transform subclasses with value equality, huge non-whole rationals')
 PROBES = {'C20': ['rotation_out_of_range', 'negative_rotation',
                   'shared_listener', 'cross_event_silence_checked',
                   'constructed_with_values',
